@@ -306,6 +306,8 @@ def c09_scope(tier):
     P.append(("relay-near-machines-row", 'Signal s = ("signal-A", 1);\nEntity a = place("small-lamp", 0, 1);\na.enable = s > 0;\nEntity b = place("small-lamp", 44, 1);\nb.enable = s > 1;\n'
               + "".join(f'Entity m{k} = place("assembling-machine-1", {6 + 7 * k}, 0);\n' for k in range(5))))
     P.append(("props", 'Entity a = place("small-lamp", 0, 0, {use_colors: 1});\nEntity b = place("inserter", 2, 0, {direction: 4});\n'))
+    # more than 500 entities switches the layout solver to component decomposition
+    P.append(("more-than-500", "for i in 0..26 {\n  for j in 0..20 {\n    Entity l = place(\"small-lamp\", i, j);\n  }\n}\n"))
     if tier != "quick":
         P.append(("grid40", "for i in 0..8 {\n  for j in 0..5 {\n    Entity l = place(\"small-lamp\", i * 2, j * 2);\n  }\n}\n"))
     return P
@@ -458,6 +460,8 @@ def c03_scope(tier):
               'n.write(v | "signal-N", when=en && (g > 0));\nSignal out = m.read();\nSignal out2 = n.read();\n', {"v": [5, 9], "c": [0, 1], "g": [0, 1]}))
     P.append(("dup-comparison-earlier", V + C + M + 'Signal armed = c > 0;\nm.write(v | "signal-M", when=c > 0);\nSignal out = m.read();\nSignal a2 = armed + 0;\n', {"v": vp, "c": cp}))
     P.append(("enable-used-in-data", V + C + M + 'Signal en = c > 0;\nm.write((v + en) | "signal-M", when=en);\nSignal out = m.read();\n', {"v": vp, "c": cp}))
+    P.append(("literal-data", C + M + 'm.write(7, when=c > 0);\nSignal out = m.read();\n', {"c": [0, 1, 2]}))
+    P.append(("declared-enable-init-1", V + 'Signal c = ("signal-B", 1);\n' + M + 'm.write(v | "signal-M", when=c);\nSignal out = m.read();\n', {"v": [5, 9], "c": [0, 1]}))
     # a cell declared in a function body: every call owns its own cell (call = substitution)
     P.append(("cell-in-function", 'func keep(Signal d, Signal en) {\n  Memory m: "signal-M";\n  m.write(d | "signal-M", when=en > 0);\n  return m.read();\n}\n'
               + V + C + 'Signal w = ("signal-D", 7);\nSignal out = keep(v, c);\nSignal out2 = keep(w, c);\n', {"v": [5, 9], "c": [0, 1], "w": [7, -2]}))
